@@ -61,6 +61,21 @@ class Listener(object):
         self.srv.close()
 
 
+def _wall_step(after, step):
+    """The host's wall clock is stepped (NTP correction, resume from suspend, a date change) `after` seconds from now; returns the
+    function that puts it back.  Monotonic clocks are not affected - nor is anything that waits on them."""
+    import threading
+    orig = time.time
+    tm = threading.Timer(after, lambda: setattr(time, 'time', lambda: orig() + step))
+    tm.start()
+
+    def restore():
+        tm.cancel()
+        tm.join()
+        time.time = orig
+    return restore
+
+
 def script_of(path):
     return [e['act'] for e in path]
 
@@ -141,15 +156,21 @@ def drive_sync(script, timeout_s=0.05):
                     import threading
                     tm = threading.Timer(a['delay'], lambda: L.peer.sendall(data))
                     tm.start()
+                    restore = _wall_step(a['delay'] / 4.0, a['wallstep']) if a.get('wallstep') else None
                     try:
-                        got = t.bulk_read(a['n'], None)
+                        try:
+                            got = t.bulk_read(a['n'], a.get('tmo'))
+                        finally:
+                            if restore:
+                                restore()
                         tr.append(dict(op='pw', m=a['m']))
                         written += a['m']
                         ok = [byte_name(delivered + i + 1, epoch) for i in range(len(got))] == list(got)
                         tr.append(dict(op='read', n=a['n'], k=len(got), first=delivered + 1, contiguous=bool(ok)))
                         delivered += len(got)
                     except Exception as x:  # noqa
-                        tr.append(dict(op='error', clause='NoTimeoutMeansWait', what='bulk_read(n, None) raised %r although the peer spoke after %.2f s' % (x, a['delay'])))
+                        tr.append(dict(op='error', clause='NoTimeoutMeansWait' if a.get('tmo') is None else 'NotBeforeTimeout',
+                                       what='bulk_read(n, %r) raised %r although the peer spoke after %.2f s%s' % (a.get('tmo'), x, a['delay'], ' (the wall clock was stepped by %d s meanwhile)' % a['wallstep'] if a.get('wallstep') else '')))
                         tm.join()
                         break
                     tm.join()
@@ -238,15 +259,21 @@ def drive_async(script, timeout_s=0.05):
                     elif op == 'dread':
                         data = bytes(byte_name(written + i + 1, epoch) for i in range(a['m']))
                         asyncio.get_running_loop().call_later(a['delay'], lambda: L.peer.sendall(data))
+                        restore = _wall_step(a['delay'] / 4.0, a['wallstep']) if a.get('wallstep') else None
                         try:
-                            got = await t.bulk_read(a['n'], None)
+                            try:
+                                got = await t.bulk_read(a['n'], a.get('tmo'))
+                            finally:
+                                if restore:
+                                    restore()
                             tr.append(dict(op='pw', m=a['m']))
                             written += a['m']
                             ok = [byte_name(delivered + i + 1, epoch) for i in range(len(got))] == list(got)
                             tr.append(dict(op='read', n=a['n'], k=len(got), first=delivered + 1, contiguous=bool(ok)))
                             delivered += len(got)
                         except Exception as x:  # noqa
-                            tr.append(dict(op='error', clause='NoTimeoutMeansWait', what='bulk_read(n, None) raised %r although the peer spoke after %.2f s' % (x, a['delay'])))
+                            tr.append(dict(op='error', clause='NoTimeoutMeansWait' if a.get('tmo') is None else 'NotBeforeTimeout',
+                                           what='bulk_read(n, %r) raised %r although the peer spoke after %.2f s' % (a.get('tmo'), x, a['delay'])))
                             break
                     elif op == 'oob':
                         if not oob_sent:
@@ -385,7 +412,8 @@ def body(ctx, prefix='C18'):
     # timeout waits for a peer that stays silent for longer than the timeout connect() was given
     for mode, drv in (('sync', drive_sync), ('async', drive_async)):
         sc = [dict(op='connect'), dict(op='pw', m=3), dict(op='read', n=3), dict(op='rst'), dict(op='close'), dict(op='close'), dict(op='connect'), dict(op='pw', m=2), dict(op='read', n=2),
-              dict(op='dread', m=3, n=3, delay=0.25), dict(op='dread', m=1, n=24, delay=0.12), dict(op='close')]
+              dict(op='dread', m=3, n=3, delay=0.25), dict(op='dread', m=1, n=24, delay=0.12),
+              dict(op='dread', m=2, n=2, delay=0.7, tmo=3.0, wallstep=3600), dict(op='dread', m=2, n=2, delay=0.3, tmo=3.0, wallstep=-3600), dict(op='close')]
         traces.append(drv(sc))
         meta.append(dict(kind='peer reset, then reconnect; reads without a timeout', mode=mode, script=sc))
     # what the peer had sent and the host had not consumed when it closed must not turn up on the next connection
